@@ -147,10 +147,6 @@ type IterV struct {
 	pos  int
 }
 
-type raceInfo struct{}
-
-func (r *raceInfo) hashInto(h *hasher) {}
-
 type EventNode struct {
 	parent *EventNode
 	text   string
@@ -174,6 +170,9 @@ func (e *Engine) clone(s *State) *State {
 	copy(c.gs, s.gs)
 	c.dec = nil
 	c.quiesce = append([]*FuncV(nil), s.quiesce...)
+	if s.race != nil {
+		c.race = s.race.clone()
+	}
 	s.gen = e.newGen()
 	c.gen = e.newGen()
 	e.stats.Clones++
